@@ -30,6 +30,8 @@ typedef struct { uint32_t seed; uint8_t kind; uint8_t n; uint16_t idx; } tparams
 
 static unsigned char *arr;
 static size_t esz;
+static size_t hdr;              /* 0, or 8 when every element starts with its own trial function (your_trial_func == NULL) */
+static int fn_called[48];       /* which of the per-trial functions ran the trial (1 or 2) */
 static int ntrials;
 static int calls[MAXTRIALS], active, max_active;
 static int worker_of[MAXTRIALS]; static int worker_trials[BATON_MAX + 1];
@@ -260,8 +262,8 @@ static void trial_compute(const tparams *tp, tresult *res)
 
 static void store_result(unsigned char *elem, const tresult *res)
 {
-    const size_t room = esz - sizeof(tparams);
-    memcpy(elem + sizeof(tparams), res, room < sizeof *res ? room : sizeof *res);
+    const size_t room = esz - hdr - sizeof(tparams);
+    memcpy(elem + hdr + sizeof(tparams), res, room < sizeof *res ? room : sizeof *res);
 }
 
 static void trial_fn(void *vp)
@@ -280,7 +282,7 @@ static void trial_fn(void *vp)
     const int w = baton_self();
     worker_of[i] = w;
     if (w >= 0) { if (worker_trials[w] > 0) PROBE("exp.trial_on_dirty_worker"); worker_trials[w]++; }
-    tparams tp; memcpy(&tp, elem, sizeof tp);
+    tparams tp; memcpy(&tp, elem + hdr, sizeof tp);
     tresult res;
     trial_compute(&tp, &res);
     store_result(elem, &res);
@@ -288,12 +290,15 @@ static void trial_fn(void *vp)
     active--;
     baton_yield();                                                   /* trial exit */
 }
+/* per-trial functions (documented use: your_trial_func == NULL, the first member of each trial struct is the function to call) */
+static void trial_fn_a(void *vp) { const ptrdiff_t off = (unsigned char *)vp - arr; if (off >= 0 && (size_t)off / esz < 48) fn_called[(size_t)off / esz] = 1; trial_fn(vp); }
+static void trial_fn_b(void *vp) { const ptrdiff_t off = (unsigned char *)vp - arr; if (off >= 0 && (size_t)off / esz < 48) fn_called[(size_t)off / esz] = 2; trial_fn(vp); }
 
 static void *ref_thread(void *vp)
 {
     /* reference: one trial in a fresh thread, nothing before it, nobody beside it */
     unsigned char *elem = vp;
-    tparams tp; memcpy(&tp, elem, sizeof tp);
+    tparams tp; memcpy(&tp, elem + hdr, sizeof tp);
     tresult res;
     trial_compute(&tp, &res);
     store_result(elem, &res);
@@ -306,7 +311,7 @@ static void *seq_thread(void *vp)
     (void)vp;
     for (int i = ntrials - 1; i >= 0; i--) {                          /* one after another, in another order */
         unsigned char *elem = seq_arr + (size_t)i * esz;
-        tparams tp; memcpy(&tp, elem, sizeof tp);
+        tparams tp; memcpy(&tp, elem + hdr, sizeof tp);
         tresult res;
         trial_compute(&tp, &res);
         store_result(elem, &res);
@@ -327,6 +332,9 @@ static void ex_run(const plan *p)
         break;
     }
     esz = SIZES[sizeidx];
+    hdr = 0;
+    for (int i = 0; i < p->n; i++) if (pis(&p->l[i], "PERFN") && pa(&p->l[i], 0)) { hdr = sizeof(cimba_trial_func *); esz = (esz + 7u) & ~(size_t)7u; if (esz < 24) esz = 24; }
+    memset(fn_called, 0, sizeof fn_called);
     arr = calloc((size_t)ntrials + 1, esz);
     unsigned char *refarr = calloc((size_t)ntrials + 1, esz);
     seq_arr = calloc((size_t)ntrials + 1, esz);
@@ -336,8 +344,9 @@ static void ex_run(const plan *p)
             const pline *l = &p->l[k];
             if (pis(l, "TRIAL") && (int)((uint64_t)pa(l, 0) % (uint64_t)ntrials) == i) { tp.kind = (uint8_t)((uint64_t)pa(l, 1) % NKINDS); tp.seed = (uint32_t)pa(l, 2); tp.n = (uint8_t)pa(l, 3); }
         }
-        memcpy(arr + (size_t)i * esz, &tp, sizeof tp);
-        memset(arr + (size_t)i * esz + sizeof tp, 0xEE, esz - sizeof tp);
+        if (hdr) { cimba_trial_func *f = (tp.seed + (uint32_t)i) % 2 ? trial_fn_a : trial_fn_b; memcpy(arr + (size_t)i * esz, &f, sizeof f); }
+        memcpy(arr + (size_t)i * esz + hdr, &tp, sizeof tp);
+        memset(arr + (size_t)i * esz + hdr + sizeof tp, 0xEE, esz - hdr - sizeof tp);
     }
     memset(arr + (size_t)ntrials * esz, 0x5A, esz);                    /* canary element after the array */
     memcpy(refarr, arr, ((size_t)ntrials + 1) * esz);
@@ -350,7 +359,8 @@ static void ex_run(const plan *p)
     baton_set_cores((uint32_t)nworkers);
     experiment_running = true;
     libstate_snapshot();
-    cimba_run_experiment(arr, (uint64_t)ntrials, esz, trial_fn);
+    cimba_run_experiment(arr, (uint64_t)ntrials, esz, hdr ? NULL : trial_fn);
+    if (hdr) PROBE("exp.per_trial_functions");
     experiment_running = false;
     const int active_at_return = active;
     int undone = 0;
@@ -370,6 +380,11 @@ static void ex_run(const plan *p)
         viol("C19", "returned-early", "cimba_run_experiment returned while %d trial calls were still running and %d trials had not begun", active_at_return, undone);
     for (int i = 0; i < ntrials; i++)
         if (calls[i] != 1) viol("C19", calls[i] == 0 ? "trial-not-run" : "trial-run-twice", "trial %d of %d was called %d times (%d workers)", i, ntrials, calls[i], nworkers);
+    if (hdr) for (int i = 0; i < ntrials; i++) {
+        cimba_trial_func *f; memcpy(&f, arr + (size_t)i * esz, sizeof f);
+        const int want = (f == trial_fn_a) ? 1 : (f == trial_fn_b) ? 2 : -1;
+        if (calls[i] == 1 && fn_called[i] != want) viol("C19", "wrong-trial-function", "trial %d was run by per-trial function %d, its struct names function %d", i, fn_called[i], want);
+    }
     for (size_t b = 0; b < esz; b++) if (arr[(size_t)ntrials * esz + b] != 0x5A) { viol("C19", "wrote-past-array", "the element after the trial array was modified"); break; }
 
     if (g_nviol == 0) {
@@ -383,19 +398,19 @@ static void ex_run(const plan *p)
         __real_pthread_join(th, NULL);
         for (int i = 0; i < ntrials; i++) {
             if (memcmp(seq_arr + (size_t)i * esz, refarr + (size_t)i * esz, esz) != 0) {
-                tparams tp; memcpy(&tp, arr + (size_t)i * esz, sizeof tp);
+                tparams tp; memcpy(&tp, arr + (size_t)i * esz + hdr, sizeof tp);
                 viol("C19", "sequential-depends-on-earlier-trial", "trial %d (kind %d): result in a one-after-another run differs from its result in a fresh thread", i, tp.kind % NKINDS);
                 break;
             }
             if (memcmp(arr + (size_t)i * esz, refarr + (size_t)i * esz, esz) != 0) {
-                tparams tp; memcpy(&tp, arr + (size_t)i * esz, sizeof tp);
+                tparams tp; memcpy(&tp, arr + (size_t)i * esz + hdr, sizeof tp);
                 viol("C19", worker_trials[worker_of[i] < 0 ? 0 : worker_of[i]] > 1 ? "result-depends-on-schedule/dirty-worker" : "result-depends-on-schedule",
                      "trial %d (kind %d, on worker %d): result differs from the same trial run alone in a fresh thread", i, tp.kind % NKINDS, worker_of[i]);
                 break;
             }
         }
     }
-    for (int i = 0; i < ntrials; i++) TR3("res", i, worker_of[i], mix64(arr[(size_t)i * esz + 8], arr[(size_t)i * esz + esz - 1]));
+    for (int i = 0; i < ntrials; i++) TR3("res", i, worker_of[i], mix64(arr[(size_t)i * esz + hdr + 8], arr[(size_t)i * esz + esz - 1]));
     g_stats.events = total_events;
     int busy = 0; for (int w = 0; w < BATON_MAX; w++) if (worker_trials[w] > 1) busy++;
     g_stats.nontrivial = busy > 0 && g_stats.faults > 0;
@@ -422,6 +437,7 @@ static void ex_gen(plan *p, uint64_t seed, const char *cfg)
     plan_add(p, "INIT", 6, (int64_t)(nt - 1), (int64_t)(nw - 1), (int64_t)vrng_below(&r, NSIZES), (int64_t)(vrng_next(&r) >> 16),
              (int64_t)(10 + vrng_below(&r, 91)), (int64_t)vrng_below(&r, 30));
     const bool shared_seed = vrng_chance(&r, 1, 3);
+    if (vrng_chance(&r, 1, 4)) plan_add(p, "PERFN", 1, (int64_t)1);
     for (int i = 0; i < nt; i++)
         plan_add(p, "TRIAL", 4, (int64_t)i, (int64_t)vrng_below(&r, NKINDS), shared_seed ? (int64_t)42 : (int64_t)vrng_below(&r, 100000), (int64_t)vrng_below(&r, 200));
 }
